@@ -748,9 +748,26 @@ async def op_setflag(env, ctx, step):
     await awaitable
 
 
+#: every way of changing a tracked (integer) value through an operator: name -> (on the tracked
+#: value, on the shadow value)
+TRACKED_OPERATORS = {
+    'add': lambda v, a: v + a, 'sub': lambda v, a: v - a, 'mul': lambda v, a: v * a,
+    'floordiv': lambda v, a: v // a, 'mod': lambda v, a: v % a, 'pow': lambda v, a: v ** a,
+    'lshift': lambda v, a: v << a, 'rshift': lambda v, a: v >> a, 'and': lambda v, a: v & a,
+    'or': lambda v, a: v | a, 'xor': lambda v, a: v ^ a,
+    'pow3': lambda v, a: pow(v, a[0], a[1]),
+}
+
+
 async def op_settracked(env, ctx, step):
     tracked = env.objects['tracked'][step['i']]
-    if 'add' in step:
+    if 'opr' in step:
+        operate = TRACKED_OPERATORS[step['opr']]
+        arg = step['arg']
+        env.shadow['tracked'][step['i']] = operate(env.shadow['tracked'][step['i']],
+                                                   tuple(arg) if isinstance(arg, list) else arg)
+        await operate(tracked, tuple(arg) if isinstance(arg, list) else arg)
+    elif 'add' in step:
         env.shadow['tracked'][step['i']] += step['add']
         await (tracked + step['add'])
     else:
